@@ -185,6 +185,8 @@ pub struct Sink<S: Crystal> {
     pub record_params: bool,
     pub prev: Vec<u64>,
     pub obs: Vec<Obs>,
+    /// first evaluation during which the state's own score() changed one of its parameters
+    pub score_wrote: Option<String>,
 }
 
 pub struct Monitored<S: Crystal> {
@@ -240,8 +242,21 @@ impl<S: Crystal> State for Monitored<S> {
             }
             panic!("{} basis entry {} holds {}", NONFINITE_PARAM, i, v);
         }
+        // evaluating a state is a read: the parameters are the same before and after
+        let before: Vec<u64> = self.inner.generate_basis().iter().map(|b| b.get_value().to_bits()).collect();
         let sc = self.inner.score();
+        let after: Vec<u64> = self.inner.generate_basis().iter().map(|b| b.get_value().to_bits()).collect();
         let mut g = self.sink.lock().unwrap();
+        if before != after && g.score_wrote.is_none() {
+            let i = before.iter().zip(after.iter()).position(|(a, b)| a != b).unwrap_or(0);
+            g.score_wrote = Some(format!(
+                "score() call {} changed parameter {} from {:e} to {:e}",
+                g.calls,
+                i,
+                f64::from_bits(*before.get(i).unwrap_or(&0)),
+                f64::from_bits(*after.get(i).unwrap_or(&0))
+            ));
+        }
         let sink = &mut *g;
         let call = sink.calls;
         sink.calls += 1;
@@ -524,6 +539,8 @@ pub struct ChainEvents<S: Crystal> {
     pub restarts: u64,
     pub json_edits: u64,
     pub restart_error: Option<String>,
+    /// see Sink::score_wrote
+    pub score_wrote: Option<String>,
 }
 
 pub struct Boundary<S: Crystal> {
@@ -716,6 +733,7 @@ pub fn run_chain<S: Crystal>(initial: S, chain: &[Op], monitor: Box<dyn Monitor<
         record_params,
         prev: vec![],
         obs: vec![],
+        score_wrote: None,
     }));
     let mut ev = ChainEvents {
         initial: initial.clone(),
@@ -729,6 +747,7 @@ pub fn run_chain<S: Crystal>(initial: S, chain: &[Op], monitor: Box<dyn Monitor<
         restarts: 0,
         json_edits: 0,
         restart_error: None,
+        score_wrote: None,
     };
     let mut cur = initial;
     for (k, op) in chain.iter().enumerate() {
@@ -816,6 +835,7 @@ pub fn run_chain<S: Crystal>(initial: S, chain: &[Op], monitor: Box<dyn Monitor<
                     record_params: false,
                     prev: vec![],
                     obs: vec![],
+                    score_wrote: None,
                 }));
                 let _ = run_stage(clone, &cfg, &quiet, k)?;
                 ev.boundaries.push(Boundary { op: k, kind: "clone_discard", before, after: cur.clone(), obs: vec![], x0: vec![], ret: vec![], cfg: None });
@@ -823,6 +843,7 @@ pub fn run_chain<S: Crystal>(initial: S, chain: &[Op], monitor: Box<dyn Monitor<
         }
     }
     let sink = Arc::try_unwrap(sink).map_err(|_| "sink still shared".to_string())?.into_inner().map_err(|_| "sink poisoned".to_string())?;
+    ev.score_wrote = sink.score_wrote.clone();
     Ok((ev, sink.monitor))
 }
 
@@ -942,9 +963,11 @@ pub fn gen_stage_cfg(rng: &mut Rng, max_steps: u64, cli_like: bool) -> OptCfg {
     let steps = if cli_like { *rng.pick(&[1000u64, 300, 100]) } else { *rng.pick(&[50u64, 100, 200, 500, 1000]) }.min(max_steps);
     let loops = *rng.pick(&[1u64, 1, 2, 5, 10]);
     let (kt_finish, kt_ratio) = *rng.pick(&[(Some(1e-3), None), (None, None), (None, Some(0.0)), (None, Some(0.1)), (Some(0.0), None)]);
+    // (a fifth of the stages ask for a number of steps that is not a whole number of inner loops)
+    let steps = if rng.chance(0.2) { steps + 1 + rng.below(((steps / loops).max(2)) - 1) } else { steps };
     OptCfg {
         steps,
-        inner: (steps / loops).max(1),
+        inner: ((steps / loops).max(1)).min(if rng.chance(0.5) { u64::MAX } else { (steps * 3 / 10).max(1) }),
         // (both ends of the scale, rarely: a temperature at which everything valid is accepted,
         // and one at which nothing worse ever is)
         kt_start: if cli_like { 0.0 } else if rng.chance(0.04) { *rng.pick(&[1e308, 1e300, 1e-300]) } else { *rng.pick(&[0.0, 0.0, 1e-3, 0.1, 0.1, 1.0]) },
